@@ -2,6 +2,7 @@ package main
 
 import (
 	"fmt"
+	"os"
 	"go/types"
 	"strings"
 
@@ -524,6 +525,9 @@ func (e *Exec) callByContract(fr *Frame, st *BState, x *ssa.Call, f *ssa.Functio
 		cf.regs[p] = args[i]
 	}
 	label := selectorOf(f)
+	if ct.Flags["trusted"] {
+		e.assumed = append(e.assumed, "TRUSTED (assumed, not proved) contract of "+pkgShort(ct.Pkg)+"."+label)
+	}
 	env := &SpecEnv{e: e, fr: cf, st: st, bound: map[string]SV{}, cs: e.cs, pkg: ct.Pkg}
 	for i, r := range ct.Requires {
 		e.obligeNamed(st, fmt.Sprintf("call.%s.%s", label, clauseLabel(r, "requires", i)), x.Pos(), scal(env.evalGoal(r.Expr)))
@@ -533,6 +537,9 @@ func (e *Exec) callByContract(fr *Frame, st *BState, x *ssa.Call, f *ssa.Functio
 		// frame: the heap regions (by static type of the written location) the callee's code may store to
 		keys := map[string]bool{}
 		writeKeys(f, map[*ssa.Function]bool{}, keys)
+		if os.Getenv("GOVC_DEBUG") != "" {
+			fmt.Fprintf(os.Stderr, "frame of %s: %v\n", label, keys)
+		}
 		for k, h := range st.heap {
 			for pre := range keys {
 				if strings.HasPrefix(k, pre) {
